@@ -80,7 +80,11 @@ META = {
         "CFG branch analysis of ProvenanceGraph.build_graph (which outcomes of the recovering / availability tests can "
         "reach the expansion to producers), of FileToken.is_available and _is_path_available (which returns each "
         "outcome of each test can reach, must-pass-through of the invalidation), and def-use analysis of "
-        "GraphMapper.get_step_ids (exclusion filter, removal of steps with unmapped inputs). Decides the structural "
+        "GraphMapper.get_step_ids (exclusion filter, removal of steps with unmapped inputs). R5: a small abstract "
+        "typing of tag-valued expressions (tag / component list / collection of tags) in every override of Step.restore "
+        "and Combinator.restore (class table) decides that tags are never compared, ordered or cut as raw strings and "
+        "that the filter of a FilterTokenPort built there is whole-tag membership in a collection fed only from "
+        "on_tokens. Decides the structural "
         "conditions under which only lost data is expanded; it does not predict execution counts."
     ),
     "undecided": "the predicted re-execution counts per job",
@@ -736,22 +740,27 @@ class _TagKinds:
         return None
 
 
-def _callable_def(f, e: ast.AST):
-    """(parameter names, [result expressions]) of the lambda / local function denoted by `e`, or None."""
+def _callable_def(p, f, e: ast.AST):
+    """(parameter names, [(result expression, [(condition, truth) known when it is returned])]) of the lambda /
+    local function denoted by `e`, or None."""
     e = strip(e)
     if isinstance(e, ast.Name):
         vals = [d for d in defs_of(f, e.id)]
         nested = [n for n in ast.walk(f.node) if isinstance(n, (ast.FunctionDef, ast.AsyncFunctionDef)) and n is not f.node and n.name == e.id]
         if len(nested) == 1 and not vals:
             fn = nested[0]
-            rets = [n.value for n in ast.walk(fn) if isinstance(n, ast.Return)]
-            if isinstance(fn, ast.AsyncFunctionDef) or not rets or any(r is None for r in rets):
+            nf = next((x for x in p.all_funcs() if x.node is fn), None) if p is not None else None
+            if isinstance(fn, ast.AsyncFunctionDef) or nf is None:
+                return None
+            g = nf.cfg
+            rets = [(n.ast.value, path_facts(g, n.id)) for n in g.nodes.values() if n.kind == "return"]
+            if not rets or any(v is None for v, _ in rets):
                 return None
             return [a.arg for a in fn.args.posonlyargs + fn.args.args], rets
         if len(vals) == 1 and vals[0].kind in ("assign", "walrus") and vals[0].index is None and not nested:
             e = strip(vals[0].value)
     if isinstance(e, ast.Lambda):
-        return [a.arg for a in e.args.posonlyargs + e.args.args], [e.body]
+        return [a.arg for a in e.args.posonlyargs + e.args.args], [(e.body, [])]
     return None
 
 
@@ -840,8 +849,8 @@ def _raw_tag_ops(p, f, tk: _TagKinds) -> list[tuple[ast.AST, str]]:
         if isinstance(n, ast.Call):
             fn = n.func
             key = next((k.value for k in n.keywords if k.arg == "key"), None)
-            kdef = _callable_def(f, key) if key is not None else None
-            raw_key = kdef is not None and any(tk.kind(b) in ("tag", "str", "comps") for b in kdef[1])
+            kdef = _callable_def(p, f, key) if key is not None else None
+            raw_key = kdef is not None and any(tk.kind(b) in ("tag", "str", "comps") for b, _ in kdef[1])
             aks = [tk.kind(a) for a in n.args]
             if isinstance(fn, ast.Attribute):
                 rk = tk.kind(fn.value)
@@ -916,12 +925,13 @@ def r5(ctx):
             elif fe is None or _const(strip(fe), None):
                 why = "no filter_function is given (the default admits every token)"
             else:
-                cd = _callable_def(f, fe)
+                cd = _callable_def(p, f, fe)
                 if cd is None or len(cd[0]) != 1:
                     why = f"the filter `{unparse(fe)[:60]}` is not a one-argument lambda / local function that can be read here"
                 else:
                     tok = cd[0][0]
-                    wrong = [r for r in cd[1] if not (_const(strip(r), False) or _exact_filter(tk, tok, r, arg))]
+                    wrong = [r for r, facts in cd[1] if not (
+                        _const(strip(r), False) or _exact_filter(tk, tok, r, arg) or any(_exact_filter(tk, tok, c_, arg, v_) for c_, v_ in facts))]
                     if wrong:
                         why = (f"the filter result `{unparse(wrong[0])[:80]}` is not `{tok}.tag in <tags of {arg}[...]>` (whole-tag equality / membership "
                                f"in a collection fed only from `{arg}`)")
@@ -930,12 +940,15 @@ def r5(ctx):
 
 
 RULES = [("R1", r1), ("R2", r2), ("R3", r3), ("R4", r4), ("R5", r5)]
-FLOORS = {"R1": 9, "R2": 11, "R3": 5, "R4": 16}
+FLOORS = {"R1": 9, "R2": 11, "R3": 5, "R4": 16, "R5": 8}
 
 _BG = f"{UTILS}.ProvenanceGraph.build_graph"
 _FA = f"{TOK}.FileToken.is_available"
 _PA = f"{TOK}._is_path_available"
 _GS = f"{UTILS}.GraphMapper.get_step_ids"
+_SR = f"{STEPM}.ScatterStep.restore"
+_LR = f"{STEPM}.LoopCombinatorStep.restore"
+_CR = "streamflow.workflow.combinator.LoopCombinator.restore"
 
 VARIANTS = [
     V("expansion when the token IS available", UTILS_FILE, _BG, "elif (is_available := (await token.is_available(context=self.context))):", "elif not (is_available := (await token.is_available(context=self.context))):", "R1", control=True),
@@ -973,6 +986,29 @@ VARIANTS = [
     V("removal only when debugging", UTILS_FILE, _GS, "        step_ids.remove(step_id)", "            step_ids.remove(step_id)", "R3"),
     V("unmapped-input test inverted", UTILS_FILE, _GS, "if port_row['name'] not in self.port_tokens.keys():", "if port_row['name'] in self.port_tokens.keys():", "R3"),
     V("removal loop dropped", UTILS_FILE, _GS, "        step_ids.remove(step_id)\n", "        pass\n", "R3"),
+    # R5: restore filters select exactly the requested tags
+    V("scatter filter matches tags by string prefix (seeded)", STEP_FILE, _SR, "lambda t: t.tag in valid_tags", "lambda t: t.tag.startswith(tuple(valid_tags))", "R5", control=True),
+    V("scatter filter: any(startswith)", STEP_FILE, _SR, "lambda t: t.tag in valid_tags", "lambda t: any((t.tag.startswith(v) for v in valid_tags))", "R5"),
+    V("scatter filter: requested tag is a prefix of the token tag", STEP_FILE, _SR, "lambda t: t.tag in valid_tags", "lambda t: any((v == t.tag[:len(v)] for v in valid_tags))", "R5"),
+    V("scatter filter: substring of the joined tags", STEP_FILE, _SR, "lambda t: t.tag in valid_tags", "lambda t: t.tag in ','.join(valid_tags)", "R5"),
+    V("scatter filter: requested tag contained in the token tag", STEP_FILE, _SR, "lambda t: t.tag in valid_tags", "lambda t: any((v in t.tag for v in valid_tags))", "R5"),
+    V("scatter filter: regular expression on the tag", STEP_FILE, _SR, "lambda t: t.tag in valid_tags", "lambda t: any((re.match(v, t.tag) for v in valid_tags))", "R5"),
+    V("scatter filter: component-wise prefix (children of a requested tag pass)", STEP_FILE, _SR, "lambda t: t.tag in valid_tags",
+      "lambda t: any((_is_parent_tag(v, t.tag) for v in valid_tags))", "R5"),
+    V("scatter filter: tags that were not requested are added", STEP_FILE, _SR, "valid_tags = [token.tag for token in on_tokens[port.name]]",
+      "valid_tags = [token.tag for token in on_tokens[port.name]] + [x.tag for x in port.token_list[:1]]", "R5"),
+    V("scatter filter: fed from the old port instead of on_tokens", STEP_FILE, _SR, "for token in on_tokens[port.name]]", "for token in port.token_list]", "R5"),
+    V("scatter filter: membership or anything deeper", STEP_FILE, _SR, "lambda t: t.tag in valid_tags", "lambda t: t.tag in valid_tags or len(t.tag.split('.')) > 2", "R5"),
+    V("scatter filter dropped", STEP_FILE, _SR, "FilterTokenPort(filter_function=lambda t: t.tag in valid_tags, name", "FilterTokenPort(name", "R5"),
+    V("scatter filter built elsewhere", STEP_FILE, _SR, "filter_function=lambda t: t.tag in valid_tags", "filter_function=self._make_filter(valid_tags)", "R5"),
+    V("loop restore: first token chosen by raw tag order", STEP_FILE, _LR, "min(tokens, key=cmp_to_key(lambda x, y: compare_tags(x.tag, y.tag)))", "min(tokens, key=lambda x: x.tag)", "R5"),
+    V("loop restore: tags sorted as strings", STEP_FILE, _LR, "sorted(tags, key=cmp_to_key(compare_tags))", "sorted(tags)", "R5"),
+    V("loop restore: depth test replaced by a string prefix test", STEP_FILE, _LR, "if len(parent_tag.split('.')) != len(token.tag.split('.')):",
+      "if token.tag != parent_tag and token.tag.startswith(parent_tag):", "R5"),
+    V("loop restore: prefix cut by character position", STEP_FILE, _LR, "'.'.join(parent_tag.split('.')[:-1])", "parent_tag[:parent_tag.rfind('.')]", "R5"),
+    V("loop combinator restore: iterations compared as strings", COMB_FILE, _CR,
+      "        self.iteration_map[prefix] = max(self.iteration_map.get(prefix, iteration_num), iteration_num)",
+      "        if iteration > prefix:\n            self.iteration_map[prefix] = max(self.iteration_map.get(prefix, iteration_num), iteration_num)", "R5"),
     # benign
     V("availability through a temporary", UTILS_FILE, _BG,
       "        elif (is_available := (await token.is_available(context=self.context))):\n            self.add(token)",
@@ -989,4 +1025,18 @@ VARIANTS = [
       "    for step_id in step_to_remove:\n        if logger.isEnabledFor(logging.DEBUG):\n            step_name = (await self.context.database.get_step(step_id))['name']\n            logger.debug(f'Removing step {step_name}')\n        step_ids.remove(step_id)\n    return step_ids",
       "    step_ids -= step_to_remove\n    return step_ids", None),
     V("discard instead of remove", UTILS_FILE, _GS, "step_ids.remove(step_id)", "step_ids.discard(step_id)", None),
+    V("scatter filter over a set of tags", STEP_FILE, _SR, "valid_tags = [token.tag for token in on_tokens[port.name]]", "valid_tags = {token.tag for token in on_tokens[port.name]}", None),
+    V("scatter filter over a frozenset through a temporary", STEP_FILE, _SR, "valid_tags = [token.tag for token in on_tokens[port.name]]",
+      "lost = on_tokens[port.name]\n    valid_tags = frozenset((x.tag for x in lost))", None),
+    V("scatter tags collected in a loop", STEP_FILE, _SR, "valid_tags = [token.tag for token in on_tokens[port.name]]",
+      "valid_tags = []\n    for lost in on_tokens[port.name]:\n        valid_tags.append(lost.tag)", None),
+    V("scatter filter as any(==)", STEP_FILE, _SR, "lambda t: t.tag in valid_tags", "lambda t: any((t.tag == v for v in valid_tags))", None),
+    V("scatter filter as a local function", STEP_FILE, _SR, "    self.workflow.ports[port.name] = FilterTokenPort(filter_function=lambda t: t.tag in valid_tags,",
+      "    def keep(tok):\n        if tok.tag in valid_tags:\n            return True\n        return False\n    self.workflow.ports[port.name] = FilterTokenPort(filter_function=keep,", None),
+    V("scatter filter through a named lambda", STEP_FILE, _SR, "    self.workflow.ports[port.name] = FilterTokenPort(filter_function=lambda t: t.tag in valid_tags,",
+      "    keep = lambda tok: not tok.tag not in valid_tags\n    self.workflow.ports[port.name] = FilterTokenPort(filter_function=keep,", None),
+    V("scatter filter narrowed further", STEP_FILE, _SR, "lambda t: t.tag in valid_tags", "lambda t: t.tag in valid_tags and (not isinstance(t, IterationTerminationToken))", None),
+    V("loop restore: components through temporaries", STEP_FILE, _LR, "            if len(parent_tag.split('.')) != len(token.tag.split('.')):",
+      "            parent_parts = parent_tag.split('.')\n            own_parts = token.tag.split('.')\n            logger.debug(f'restoring from {token.tag}')\n            if len(parent_parts) != len(own_parts):", None),
+    V("loop combinator restore: last component through rsplit", COMB_FILE, _CR, "int(iteration.split('.')[-1])", "int(iteration.rsplit('.', 1)[-1])", None),
 ]
